@@ -14,6 +14,8 @@
      fixed_P9   move_to_cache falls back to copy + rename inside the cache directory when the rename
                 from the temporary directory fails with EXDEV
      fixed_P10  fetch asks for every address once and moves only what the storage reported as received
+     fixed_send_force  `send --force` to a local storage removes the stored object only when the cache
+                object that replaces it exists
    No proofs in this file. *)
 From Coq Require Import List Bool NArith.
 From XV Require Import Base.Amap Base.Bytes.
@@ -53,6 +55,7 @@ Definition skey_eqb (x y : skey) : bool := N.eqb (fst x) (fst y) && caddr_eqb (s
 Definition storage := list (skey * bytes).
 Definition sget (s : storage) (k : skey) : option bytes := get skey_eqb s k.
 Definition sput (s : storage) (k : skey) (b : bytes) : storage := put skey_eqb nolt s k b.
+Definition sdel (s : storage) (k : skey) : storage := del skey_eqb s k.
 
 (* the records of a tracked file: recorded content digest, recheck method (path, metadata and
    text-or-binary stores do not influence send and bring beyond selecting the file targets) *)
@@ -99,9 +102,9 @@ Fixpoint addrs (r : repo) (ts : list path) : list caddr :=
   end.
 
 (* ---- switches, faults, outcomes ---------------------------------------------------------------- *)
-Record cfg := { fixed_P9 : bool; fixed_P10 : bool }.
-Definition as_is : cfg := {| fixed_P9 := false; fixed_P10 := false |}.
-Definition all_fixed : cfg := {| fixed_P9 := true; fixed_P10 := true |}.
+Record cfg := { fixed_P9 : bool; fixed_P10 : bool; fixed_send_force : bool }.
+Definition as_is : cfg := {| fixed_P9 := false; fixed_P10 := false; fixed_send_force := false |}.
+Definition all_fixed : cfg := {| fixed_P9 := true; fixed_P10 := true; fixed_send_force := true |}.
 
 Inductive skind := Local | Generic.
 Inductive fault := FOk | FClean | FPartial.
@@ -119,14 +122,15 @@ Fixpoint zipf {A : Type} (l : list A) (fs : list fault) : list (A * fault) :=
 Inductive outcome := Ok | Err | Panic.
 
 (* ---- send ---------------------------------------------------------------------------------------- *)
-(* XvcLocalStorage::send: per cache path create_dir_all + fs::copy(object, <root>/<guid>/<path>)
-   (--force unlinks first: same result); the first error returns, what was copied stays *)
-Fixpoint send_local (g : guid) (c : cache) (st : storage) (l : list caddr) : storage * outcome :=
+(* XvcLocalStorage::send: per cache path: with --force the stored object is removed first (fdel: before
+   looking whether the cache object exists); create_dir_all + fs::copy(object, <root>/<guid>/<path>);
+   the first error returns, what was copied (and removed) stays so *)
+Fixpoint send_local (fdel : bool) (g : guid) (c : cache) (st : storage) (l : list caddr) : storage * outcome :=
   match l with
   | [] => (st, Ok)
   | a :: t => match cget c a with
-              | Some b => send_local g c (sput st (g, a) b) t
-              | None => (st, Err)
+              | Some b => send_local fdel g c (sput st (g, a) b) t
+              | None => (if fdel then sdel st (g, a) else st, Err)
               end
   end.
 (* XvcGenericStorage::send: the upload command once per cache path; a failing command is reported
@@ -142,10 +146,12 @@ Definition upload_fails (c : cache) (af : caddr * fault) : bool :=
 Definition send_generic (g : guid) (c : cache) (st : storage) (l : list caddr) (fs : list fault) : storage * outcome :=
   let z := zipf l fs in
   (fold_left (upload1 g c) z st, if existsb (upload_fails c) z then Err else Ok).
-(* cmd_send: file targets from the store, address from the CURRENT digest *)
-Definition send (k : skind) (r : repo) (st : storage) (ts : list path) (fs : list fault) : storage * outcome :=
+(* cmd_send: file targets from the store, address from the CURRENT digest; --force is ignored by a
+   generic storage *)
+Definition send (cf : cfg) (k : skind) (r : repo) (st : storage) (ts : list path) (force : bool) (fs : list fault)
+  : storage * outcome :=
   match k with
-  | Local => send_local (r_guid r) (r_cache r) st (addrs r ts)
+  | Local => send_local (force && negb (fixed_send_force cf)) (r_guid r) (r_cache r) st (addrs r ts)
   | Generic => send_generic (r_guid r) (r_cache r) st (addrs r ts) fs
   end.
 
@@ -280,7 +286,7 @@ Inductive step :=
 | SDropCache (i : N)
 | SUserDel (i : N) (p : path)
 | SUserWrite (i : N) (p : path) (content : bytes)
-| SSend (i : N) (k : skind) (ts : list path) (fs : list fault)
+| SSend (i : N) (k : skind) (force : bool) (ts : list path) (fs : list fault)
 | SBring (i : N) (k : skind) (tmp_same_fs force : bool) (ts : list path) (fs : list fault).
 
 Definition wstep (cf : cfg) (w : world) (s : step) : world * outcome :=
@@ -300,9 +306,9 @@ Definition wstep (cf : cfg) (w : world) (s : step) : world * outcome :=
       match wrepo w i with Some r => (set_repo w i (set_ws r (wdel (r_ws r) p)), Ok) | None => (w, Err) end
   | SUserWrite i p content =>
       match wrepo w i with Some r => (set_repo w i (set_ws r (wput (r_ws r) p (WBytes content))), Ok) | None => (w, Err) end
-  | SSend i k ts fs =>
+  | SSend i k force ts fs =>
       match wrepo w i with
-      | Some r => let '(st, o) := send k r (stor w) ts fs in ({| repos := repos w; stor := st |}, o)
+      | Some r => let '(st, o) := send cf k r (stor w) ts force fs in ({| repos := repos w; stor := st |}, o)
       | None => (w, Err)
       end
   | SBring i k tmp force ts fs =>
